@@ -69,9 +69,43 @@ RULE = ("single-fault programs: 31 fault classes x 24 construct positions (as C0
         "positions are those the printer assigned to first tokens, and every node position in the listener-built tree with the printer's; plus 12 blocks executed a second time with other data (another child fails: the second error cites that child only); distinct non-trivial = distinct (fault class, position, cited line) with at least one citation")
 
 
+def far_lines(run):
+    """Positions far down a long text: the same single-fault rule compiled as it is and after 65,600 / 140,000 blank lines (and
+    after 70,000 comment lines): every cited line must move by exactly that many lines, the columns stay (a metamorphic check on
+    the implementation — the unpadded texts are compared with the model in the main campaign; such line numbers are not handed to
+    Coq as unary numerals)."""
+    faults = [("div-by-zero", block([assign(("var", "x"), "=", ("math", mk_mbin("/", mint(5), mint(0))))]), []),
+              ("missing-function", block([scall(call("func", "Nope", []))]), []),
+              ("string-minus-int", block([assign(("var", "x"), "=", ("math", mk_mbin("-", matom(const(kstr("a"))), mint(1))))]), []),
+              ("assignment-to-injected-value", block([assign(("var", "c5"), "=", ("math", mint(1)))]), [inj_val("c5", tv_int("i64", 5))]),
+              ("logic-on-a-number", block([sif(mk_elogic("&&", emath(mint(5)), emath(matom(const(kbool(True))))), block([]))]), [])]
+    pads = [(0, ""), (65600, "\n"), (140000, "\n"), (70000, "// c\n")]
+    cases, cid = [], 95000
+    for name, body, inj in faults:
+        for n, unit in pads:
+            import copy
+            c = make_case(cid, copy.deepcopy(body), inj)
+            c["text"], c["tree"], c["fault"], c["pad"] = unit * n + c["text"], False, name, n
+            cases.append(c); cid += 1
+    obs = run_lang(cases, timeout=120)
+    base, bad = {}, 0
+    for c, o in zip(cases, obs):
+        if c["pad"] == 0:
+            base[c["fault"]] = o["cites"]
+    for c, o in zip(cases, obs):
+        want = [[l + c["pad"], col] for l, col in base[c["fault"]]]
+        if not base[c["fault"]] or o.get("crash") or o.get("compile") or o["cites"] != want:
+            bad += 1
+            run.report({"kind": "lang-case", "symptom": "far-line", "fault": c["fault"]},
+                       {"text_tail": c["text"][-200:], "leading_lines": c["pad"], "inject": c["inject"], "rule": c["rule"], "observed_cites": o["cites"], "expected_cites": want, "errmsg": o.get("errmsg")},
+                       "C20: fault '%s' after %d leading lines: the error cites %s, the construct is at %s" % (c["fault"], c["pad"], o["cites"], want))
+    return bad == 0, {"far_line_texts": len(cases)}
+
+
 def main(run):
     return lang_check(run, PID, make_cases, RULE,
-                      ["line/column of a construct = 1-based line / 0-based column of its first token as the printer placed it (confirmed against the listener's tree for every node of every case)"], nontrivial)
+                      ["line/column of a construct = 1-based line / 0-based column of its first token as the printer placed it (confirmed against the listener's tree for every node of every case)"], nontrivial,
+                      extra=("far_lines_C20: leading blank / comment lines (65,600, 70,000, 140,000) shift every cited line by their number", far_lines))
 
 
 def replay(run, data):
